@@ -7,6 +7,9 @@
    induction.  Lemmas about a run are always stated for an abstract outcome
    first and then applied, so that the kernel never has to unfold the
    interpreter on a symbolic configuration. *)
+(* every command of this file is bounded (the largest, one kernel evaluation of the
+   whole finite domain, takes ~12 s) *)
+Set Default Timeout 300.
 From Coq Require Import String Lia Sorted PeanoNat.
 From PG Require Import Lib.Str Lib.StrFacts Model.Init Model.InitPinned Gen.Init.
 Local Open Scope N_scope.
